@@ -25,7 +25,15 @@
                             the heap read by the maintainers is the heap AFTER the change;
                             setattr_trait l.2516-2547: notifiers are called iff old is not new;
                             getattr_trait l.1980-2005: a default materialises with old = Uninitialized.
-   Not modelled: trait_added extra graphs (inert without add_trait), dispatch="ui", weak references. *)
+     _trait_added_observer.py: every named / filtered observer contributes a TraitAddedObserver
+                            maintainer on (x, trait_added) ([KAdded], fourth step of the walk); add_trait
+                            fires trait_added and the matching maintainers hook the new trait
+                            (observer_change_handler l.151-172, [AddTrait]).
+   A node is G fs notify extra children (Common/ObsCore.v): named trait fs = [f], item observer
+   fs = [6|7|8] (extra = false), FilteredTraitObserver fs = matching names.  The `optional` flag is not
+   modelled: a named observer is skipped on an object without the trait (the harness passes
+   optional=True wherever the trait may be missing).
+   Not modelled: dispatch="ui", weak references. *)
 From Coq Require Import List Arith Bool PeanoNat.
 From TV Require Import Common.ObsCore.
 Import ListNotations.
@@ -38,12 +46,15 @@ Inductive outcome := Ok | Raise (e : exn).
 Definition call := (hkey * oid * fname * list oid * list oid)%type.
 
 Record state := mkState {
+  st_traits : traits;
   st_heap : heap;
   st_hooks : list hook;
   st_regs : list reg;
   st_next : oid
 }.
-Definition init (npool : nat) : state := mkState (fun _ _ => []) [] [] npool.
+(* fields below 12 are class traits / container pseudo-fields (always there); 12.. are added by add_trait *)
+Definition init_traits : traits := fun _ f => f <? 12.
+Definition init (npool : nat) : state := mkState init_traits (fun _ _ => []) [] [] npool.
 
 Definition items_field (f : fname) : fname := f + 3.     (* kids -> 6, m -> 7, s -> 8 *)
 
@@ -64,7 +75,8 @@ Inductive op :=
                                                         position i are replaced by vs (append, insert, pop,
                                                         setitem, del, remove, clear, extend, dict setitem /
                                                         del, set add / remove, all are instances) *)
-| Probe (o : oid).                                   (* o.value = a fresh integer *)
+| Probe (o : oid)                                    (* o.value = a fresh integer *)
+| AddTrait (o : oid) (f : fname).                    (* o.add_trait(name_f, Instance(HasTraits)) *)
 
 (* what one operation shows *)
 Record obs := mkObs {
@@ -74,43 +86,51 @@ Record obs := mkObs {
 }.
 
 (* ---- the walk of _observe.py as the ordered list of notifier additions / removals ---- *)
-Fixpoint add_order (h : heap) (k : hkey) (g : graph) (x : oid) {struct g} : list hook :=
+(* iter_observables: the fields of the node the object has; iter_objects: their content *)
+Definition obs_fields (t : traits) (x : oid) (fs : list fname) : list fname := filter (t x) fs.
+Definition next_objs (t : traits) (h : heap) (x : oid) (fs : list fname) : list oid :=
+  flat_map (h x) (obs_fields t x fs).
+
+Fixpoint add_order (t : traits) (h : heap) (k : hkey) (g : graph) (x : oid) {struct g} : list hook :=
   match g with
-  | G f n cs =>
-      (if n then [(x, f, KUser k)] else [])                                   (* _add_or_remove_notifiers *)
-      ++ map (fun c => (x, f, KMaint k c)) cs                                (* _add_or_remove_maintainers *)
-      ++ flat_map (fun c => flat_map (fun y => add_order h k c y) (h x f)) cs (* children: for child: for next_object *)
+  | G fs n e cs =>
+      flat_map (fun f => if n then [(x, f, KUser k)] else []) (obs_fields t x fs)   (* _add_or_remove_notifiers *)
+      ++ flat_map (fun f => map (fun c => (x, f, KMaint k c)) cs) (obs_fields t x fs) (* _add_or_remove_maintainers *)
+      ++ flat_map (fun c => flat_map (fun y => add_order t h k c y) (next_objs t h x fs)) cs
+                                                                  (* children: for child: for next_object *)
+      ++ (if e then [(x, TA, KAdded k g)] else [])                (* _add_or_remove_extra_graphs *)
   end.
-Fixpoint rem_order (h : heap) (k : hkey) (g : graph) (x : oid) {struct g} : list hook :=
+Fixpoint rem_order (t : traits) (h : heap) (k : hkey) (g : graph) (x : oid) {struct g} : list hook :=
   match g with
-  | G f n cs =>
-      flat_map (fun c => flat_map (fun y => rem_order h k c y) (h x f)) cs
-      ++ map (fun c => (x, f, KMaint k c)) cs
-      ++ (if n then [(x, f, KUser k)] else [])
+  | G fs n e cs =>
+      (if e then [(x, TA, KAdded k g)] else [])
+      ++ flat_map (fun c => flat_map (fun y => rem_order t h k c y) (next_objs t h x fs)) cs
+      ++ flat_map (fun f => map (fun c => (x, f, KMaint k c)) cs) (obs_fields t x fs)
+      ++ flat_map (fun f => if n then [(x, f, KUser k)] else []) (obs_fields t x fs)
   end.
 
 (* add_or_remove_notifiers(object=y, graph=c, remove=False) for every y, in order *)
-Definition add_objs (h : heap) (k : hkey) (c : graph) (ys : list oid) (H : list hook) : list hook :=
-  fold_left (fun H y => H ++ add_order h k c y) ys H.
+Definition add_objs (t : traits) (h : heap) (k : hkey) (c : graph) (ys : list oid) (H : list hook) : list hook :=
+  fold_left (fun H y => H ++ add_order t h k c y) ys H.
 (* ... remove=True: every object is its own outermost call; a failing call restores the
    hooks it had removed and raises *)
-Fixpoint rem_objs (h : heap) (k : hkey) (c : graph) (ys : list oid) (H : list hook) : list hook * bool :=
+Fixpoint rem_objs (t : traits) (h : heap) (k : hkey) (c : graph) (ys : list oid) (H : list hook) : list hook * bool :=
   match ys with
   | [] => (H, true)
-  | y :: ys' => match remove_all (rem_order h k c y) H with
-                | Some H1 => rem_objs h k c ys' H1
+  | y :: ys' => match remove_all (rem_order t h k c y) H with
+                | Some H1 => rem_objs t h k c ys' H1
                 | None => (H, false)
                 end
   end.
 
 (* one maintainer (ObserverChangeNotifier with graph c) reacting to an event with
    removed / added objects, reading heap h (the heap after the change) *)
-Definition maintain (h : heap) (strict : bool) (k : hkey) (c : graph) (rem add : list oid)
+Definition maintain (t : traits) (h : heap) (strict : bool) (k : hkey) (c : graph) (rem add : list oid)
            (H : list hook) : list hook * bool :=
-  let '(H1, ok) := rem_objs h k c rem H in
-  if ok then (add_objs h k c add H1, true)
+  let '(H1, ok) := rem_objs t h k c rem H in
+  if ok then (add_objs t h k c add H1, true)
   else if strict then (H1, false)            (* item observers: NotifierNotFound propagates *)
-  else (add_objs h k c add H1, true).        (* named traits: swallowed, the new value is hooked *)
+  else (add_objs t h k c add H1, true).      (* named traits: swallowed, the new value is hooked *)
 
 Fixpoint mem_key (k : hkey) (l : list hkey) : bool :=
   match l with [] => false | a :: l' => hkey_eqb k a || mem_key k l' end.
@@ -121,16 +141,18 @@ Definition on_slot (H : list hook) (o : oid) (fo : fname) : list kind :=
 
 (* call_notifiers: user notifiers log a call (one notifier per key whatever its reference
    count), maintainers update the hooks; an exception stops the loop *)
-Fixpoint notify_loop (h : heap) (strict : bool) (ns : list kind) (seen : list hkey)
+Fixpoint notify_loop (t : traits) (h : heap) (strict : bool) (ns : list kind) (seen : list hkey)
          (rem add : list oid) (H : list hook) : list hook * list hkey * bool :=
   match ns with
   | [] => (H, [], true)
   | KUser k :: ns' =>
-      if mem_key k seen then notify_loop h strict ns' seen rem add H
-      else let '(H', ks, ok) := notify_loop h strict ns' (k :: seen) rem add H in (H', k :: ks, ok)
+      if mem_key k seen then notify_loop t h strict ns' seen rem add H
+      else let '(H', ks, ok) := notify_loop t h strict ns' (k :: seen) rem add H in (H', k :: ks, ok)
   | KMaint k c :: ns' =>
-      let '(H1, ok) := maintain h strict k c rem add H in
-      if ok then notify_loop h strict ns' seen rem add H1 else (H1, [], false)
+      let '(H1, ok) := maintain t h strict k c rem add H in
+      if ok then notify_loop t h strict ns' seen rem add H1 else (H1, [], false)
+  | KAdded _ _ :: ns' =>                     (* only reacts to trait_added events (prevent_event) *)
+      notify_loop t h strict ns' seen rem add H
   end.
 
 (* a change of slot (o, fo) to [news] that is notified with the delta (removed, added) *)
@@ -138,13 +160,14 @@ Definition change (st : state) (o : oid) (fo : fname) (news removed added : list
            (prevented strict : bool) : state * obs :=
   let h' := upd (st_heap st) o fo news in
   let ns := on_slot (st_hooks st) o fo in
-  let '(H1, ks1, ok1) := notify_loop h' strict ns [] removed added (st_hooks st) in
+  let t := st_traits st in
+  let '(H1, ks1, ok1) := notify_loop t h' strict ns [] removed added (st_hooks st) in
   (* TraitList / TraitDict / TraitSet.notify iterate the LIVE notifier list (trait_list_object.py l.236,
      trait_dict_object.py l.154, trait_set_object.py l.128; ctraits.c copies it): notifiers appended to
      the list of the very container being notified are called with the same event (one more round) *)
   let extra := if strict && ok1 then skipn (length ns) (on_slot H1 o fo) else [] in
-  let '(H', ks2, ok2) := notify_loop h' strict extra ks1 removed added H1 in
-  (mkState h' H' (st_regs st) (st_next st),
+  let '(H', ks2, ok2) := notify_loop t h' strict extra ks1 removed added H1 in
+  (mkState t h' H' (st_regs st) (st_next st),
    mkObs (if ok1 && ok2 then Ok else Raise NotifierNotFound)
          (if prevented then [] else map (fun k => (k, o, fo, removed, added)) (ks1 ++ ks2))
          [(o, fo, news)]).
@@ -179,10 +202,11 @@ Definition quiet (st : state) : state * obs := (st, mkObs Ok [] []).
 (* observe.py apply_observers: one add_or_remove_notifiers per graph of the expression; a failing
    removal undoes the graphs already removed *)
 Definition observe1 (st : state) (k : nat) (r : oid) (g : graph) : state :=
-  mkState (st_heap st) (st_hooks st ++ add_order (st_heap st) (k, r) g r) (st_regs st ++ [((k, r), g)]) (st_next st).
+  mkState (st_traits st) (st_heap st) (st_hooks st ++ add_order (st_traits st) (st_heap st) (k, r) g r)
+          (st_regs st ++ [((k, r), g)]) (st_next st).
 Definition unobserve1 (st : state) (k : nat) (r : oid) (g : graph) : option state :=
-  match remove_all (rem_order (st_heap st) (k, r) g r) (st_hooks st) with
-  | Some H' => Some (mkState (st_heap st) H' (remove_reg ((k, r), g) (st_regs st)) (st_next st))
+  match remove_all (rem_order (st_traits st) (st_heap st) (k, r) g r) (st_hooks st) with
+  | Some H' => Some (mkState (st_traits st) (st_heap st) H' (remove_reg ((k, r), g) (st_regs st)) (st_next st))
   | None => None
   end.
 Fixpoint unobserve_all (st : state) (k : nat) (r : oid) (gs : list graph) : option state :=
@@ -191,17 +215,46 @@ Fixpoint unobserve_all (st : state) (k : nat) (r : oid) (gs : list graph) : opti
   | g :: gs' => match unobserve1 st k r g with Some st' => unobserve_all st' k r gs' | None => None end
   end.
 
+(* add_trait: trait_added fires on (x, trait_added); user notifiers there are called, every
+   TraitAddedObserver maintainer whose observer matches the new name hooks the new trait *)
+Definition restricted_add (t : traits) (h : heap) (k : hkey) (g : graph) (x : oid) (f : fname) : list hook :=
+  match g with
+  | G fs n _ cs =>
+      flat_map (fun f' => if Nat.eqb f' f then
+                            (if n then [(x, f, KUser k)] else []) ++ map (fun c => (x, f, KMaint k c)) cs
+                            ++ flat_map (fun c => flat_map (fun y => add_order t h k c y) (h x f)) cs
+                          else []) fs
+  end.
+Fixpoint added_loop (t : traits) (h : heap) (x : oid) (f : fname) (ns : list kind) (seen : list hkey)
+         (H : list hook) : list hook * list hkey :=
+  match ns with
+  | [] => (H, [])
+  | KUser k :: ns' =>
+      if mem_key k seen then added_loop t h x f ns' seen H
+      else let '(H', ks) := added_loop t h x f ns' (k :: seen) H in (H', k :: ks)
+  | KMaint _ _ :: ns' => added_loop t h x f ns' seen H      (* the event carries no objects *)
+  | KAdded k g :: ns' => added_loop t h x f ns' seen (H ++ restricted_add t h k g x f)
+  end.
+
 Definition step (st : state) (o : op) : state * obs :=
   let h := st_heap st in
+  let t := st_traits st in
   match o with
   | Observe k r g =>                                  (* observe.py l.50-58 -> add_or_remove_notifiers *)
-      (mkState h (st_hooks st ++ add_order h (k, r) g r) (st_regs st ++ [((k, r), g)]) (st_next st),
+      (mkState t h (st_hooks st ++ add_order t h (k, r) g r) (st_regs st ++ [((k, r), g)]) (st_next st),
        mkObs Ok [] [])
   | Unobserve k r g =>
-      match remove_all (rem_order h (k, r) g r) (st_hooks st) with
-      | Some H' => (mkState h H' (remove_reg ((k, r), g) (st_regs st)) (st_next st), mkObs Ok [] [])
+      match remove_all (rem_order t h (k, r) g r) (st_hooks st) with
+      | Some H' => (mkState t h H' (remove_reg ((k, r), g) (st_regs st)) (st_next st), mkObs Ok [] [])
       | None => (st, mkObs (Raise NotifierNotFound) [] [])
       end
+  | AddTrait x f =>
+      if t x f then quiet st                          (* the harness never re-adds a trait *)
+      else
+        let t' := add_trait t x f in
+        let '(H', ks) := added_loop t' h x f (on_slot (st_hooks st) x TA) [] (st_hooks st) in
+        (mkState t' h H' (st_regs st) (st_next st),
+         mkObs Ok (map (fun k => (k, x, TA, [], [])) ks) [])
   | ObserveAll k r gs => (fold_left (fun s g => observe1 s k r g) gs st, mkObs Ok [] [])
   | UnobserveAll k r gs =>
       match unobserve_all st k r gs with
@@ -221,13 +274,13 @@ Definition step (st : state) (o : op) : state * obs :=
                        | [] => match items with [] => true | _ => false end
                        | _ => cont_equal f old_items items dict_equal
                        end in
-      let st1 := mkState (upd h c (items_field f) items) (st_hooks st) (st_regs st) (S c) in
+      let st1 := mkState t (upd h c (items_field f) items) (st_hooks st) (st_regs st) (S c) in
       let '(st2, ob) := change st1 x f [c] olds [c] prevented false in
       (st2, mkObs (ob_out ob) (ob_calls ob) ((c, items_field f, items) :: ob_delta ob))
   | Touch x f =>
       match h x f with
       | [] => let c := st_next st in                  (* getattr_trait: old = Uninitialized *)
-              change (mkState h (st_hooks st) (st_regs st) (S c)) x f [c] [] [c] true false
+              change (mkState t h (st_hooks st) (st_regs st) (S c)) x f [c] [] [c] true false
       | _ => quiet st
       end
   | Splice c f i n vs =>
@@ -249,14 +302,16 @@ Fixpoint final (st : state) (ops : list op) : state :=
   match ops with [] => st | o :: r => final (fst (step st o)) r end.
 
 (* ---- the hypotheses of the theorems (Props.v), as executable checks on a state ---- *)
-Definition edge_acyclic_b (h : heap) (rs : list reg) (o : oid) (fo : fname) (news : list oid) : bool :=
-  forallb (fun kc : hkey * graph => forallb (fun y => negb (visits h (snd kc) y o fo)) (h o fo ++ news))
-          (occ_all h rs o fo).
+Definition edge_acyclic_b (t : traits) (h : heap) (rs : list reg) (o : oid) (fo : fname) (news : list oid) : bool :=
+  negb (Nat.eqb fo TA) &&           (* the changed trait is not the trait_added event trait *)
+  forallb (fun kc : hkey * graph => forallb (fun y => negb (visits t h (snd kc) y o fo)) (h o fo ++ news))
+          (occ_all t h rs o fo).
 
+Definition is_nil_b (l : list oid) : bool := match l with [] => true | _ => false end.
 Definition reg_eqb (a b : reg) : bool := hkey_eqb (fst a) (fst b) && graph_eqb (snd a) (snd b).
 (* the fresh container object is not yet walked through by any registration *)
-Definition fresh_b (h : heap) (rs : list reg) (c : oid) (fc : fname) : bool :=
-  forallb (fun r : reg => negb (visits h (snd r) (snd (fst r)) c fc)) rs.
+Definition fresh_b (t : traits) (h : heap) (rs : list reg) (c : oid) (fc : fname) : bool :=
+  forallb (fun r : reg => negb (visits t h (snd r) (snd (fst r)) c fc)) rs.
 
 Fixpoint regs_present (k : nat) (r : oid) (gs : list graph) (rs : list reg) : bool :=
   match gs with
@@ -268,19 +323,22 @@ Fixpoint regs_present (k : nat) (r : oid) (gs : list graph) (rs : list reg) : bo
    edge-acyclic for the live registrations; a removed registration is a live one *)
 Definition op_hyp (st : state) (o : op) : bool :=
   let h := st_heap st in
+  let t := st_traits st in
   let rs := st_regs st in
   match o with
+  | AddTrait x f =>          (* a new trait has no value yet; nodes naming it carry the trait_added graph *)
+      negb (t x f) && is_nil_b (h x f) && forallb (fun r : reg => wf_dyn f (snd r)) rs
   | Observe _ _ _ => true
   | Unobserve k r g => existsb (reg_eqb ((k, r), g)) rs
   | ObserveAll _ _ _ => true
   | UnobserveAll k r gs => regs_present k r gs rs
-  | SetRef x f v => edge_acyclic_b h rs x f v
+  | SetRef x f v => edge_acyclic_b t h rs x f v
   | SetCont x f items _ =>
       let c := st_next st in
-      fresh_b h rs c (items_field f) && edge_acyclic_b (upd h c (items_field f) items) rs x f [c]
-  | Touch x f => edge_acyclic_b h rs x f [st_next st]
-  | Splice c f i n vs => edge_acyclic_b h rs c f (splice (h c f) i n vs)
-  | Probe x => edge_acyclic_b h rs x 0 (h x 0)
+      fresh_b t h rs c (items_field f) && edge_acyclic_b t (upd h c (items_field f) items) rs x f [c]
+  | Touch x f => edge_acyclic_b t h rs x f [st_next st]
+  | Splice c f i n vs => edge_acyclic_b t h rs c f (splice (h c f) i n vs)
+  | Probe x => edge_acyclic_b t h rs x 0 (h x 0)
   end.
 
 Fixpoint hyps (st : state) (ops : list op) : bool :=
@@ -305,5 +363,6 @@ Definition notified (st : state) (o : op) : option (oid * fname) :=
       if prevented then None else Some (x, f)
   | Splice c f i n vs => match spliced_out (h c f) i n ++ vs with [] => None | _ => Some (c, f) end
   | Probe x => Some (x, 0)
+  | AddTrait x f => if st_traits st x f then None else Some (x, TA)
   end.
 
